@@ -145,6 +145,39 @@ class ScriptSrv(sb.UbxServerBase_):
         return data or None
 
 
+class EditingSrv(ScriptSrv):
+    """a back end whose first receive call edits the request frame (another thread preparing the next command)"""
+
+    def _receive(self):
+        if self.nrx == 0 and self.edit:
+            from comp_codec import parse_value
+            k, v = self.edit
+            setattr(self.frame.f, k, parse_value(v))
+        return super()._receive()
+
+
+def run_srvedit(line):
+    p = line.split('|')
+    kind, name, h, edit, retries, delay, txs, rxs = p[1:9]
+    txl = [t == '1' for t in txs.split(',')] if txs else []
+    rx = [(int(e.split(':')[0]), bytes.fromhex(e.split(':')[1])) for e in rxs.split(',')] if rxs else []
+    FrameFactory.destroy()
+    CLK.ticks = T0
+    s = EditingSrv(txl, rx, 4000000)
+    s.setup()
+    s.set_retries(int(retries))
+    s.set_retry_delay(int(delay))
+    f = build_frame(name, h, '')
+    f.pack()
+    at_call = bytes(f.data)
+    s.frame, s.edit = f, (edit.split('=') if edit else None)
+    rs = call(s, kind, f)
+    canon = frame(f.CID.cls, f.CID.id, at_call)
+    same = all(x == canon for x in s.sent)
+    return (f'{rs} sent={len(s.sent)} nrx={s.nrx} t={CLK.ticks - T0} calls={s.calls} same={"true" if same else "false"}',
+            '|'.join(['srv', kind, f'{f.CID.cls}:{f.CID.id}', at_call.hex(), '0', retries, delay, txs, rxs]))
+
+
 def parse_srv(line):
     p = line.split('|')
     kind, cid, pl, resp, retries, delay, txs, rxs = p[1:9]
@@ -164,6 +197,8 @@ def time_bound_ticks(kind, cls_, retries, delay, tmax):
 
 
 def real_srv(line):
+    if line.startswith('srvedit|'):
+        return run_srvedit(line)[0]
     kind, cls_, id_, payload, resp, retries, delay, txl, rx = parse_srv(line)
     FrameFactory.destroy()
     CLK.ticks = T0
@@ -237,6 +272,12 @@ def check_result(kind, cls_, id_, resp_tag, result, stream):
 
 
 def oracles_srv(line, real_out):
+    if line.startswith('srvedit|'):
+        retries = int(line.split('|')[5])
+        ok = tok(real_out, 'same') == 'true' and int(tok(real_out, 'sent') or 99) <= retries + 1
+        return [{'prop': 'C12', 'ok': ok, 'expected': 'every transmission = the encoding of the field values at the time of the call',
+                 'observed': real_out[-80:], 'what': 'all (re)transmissions carry the same canonical bytes: the field values at the time of the call, '
+                                                     'also when the frame object is edited while the request is under way'}], []
     kind, cls_, id_, payload, resp, retries, delay, txl, rx = parse_srv(line)
     result = real_out.split(' ')[0]
     recs = []
@@ -310,8 +351,32 @@ def noise(rng):
     return bytes(f)
 
 
+def gen_srvedit(rng, n):
+    from comp_codec import payload_for, wellformed, field_kinds
+    for _ in range(n):
+        name = rng.choice(['UbxCfgRate', 'UbxCfgNav5', 'UbxCfgPrtUart', 'UbxMgaIniTimeUtc', 'UbxCfgTp5', 'UbxCfgCfgAction', 'UbxCfgRstAction'])
+        pl = payload_for(rng, name)
+        while not wellformed(name, pl):
+            pl = payload_for(rng, name)
+        kinds = [k for k in field_kinds(name, pl) if k[1] != 'text']
+        fname, k, w = rng.choice(kinds)
+        kind = 'mga' if name == 'UbxMgaIniTimeUtc' else 'set'
+        retries = rng.randrange(1, 4)
+        delay = rng.choice([1, 125])
+        # the first attempts time out, a later one is acknowledged
+        cls = find_class(name)
+        ans = frame(0x13, 0x60, [1, 0, 0, cls.CID.id, 0, 0, 0, 0]) if kind == 'mga' else frame(5, 1, [cls.CID.cls, cls.CID.id])
+        silent = rng.randrange(1, retries + 1)
+        rx = [(delay * 2 + 5, b'')] * silent + [(1, ans)]
+        yield '|'.join(['srvedit', kind, name, pl.hex(), f'{fname}={rng.choice([0, 1, 2, 7])}', str(retries), str(delay),
+                        ','.join('1' for _ in range(retries + 1)), ','.join(f'{dt}:{d.hex()}' for dt, d in rx)])
+
+
 def gen_srv(rng, n, profile):
     """profile 'mixed' (C04/C12), 'bounds' (C05: cyclic tails, boundary delays)"""
+    if profile == 'mixed':
+        for ln in gen_srvedit(rng, max(20, n // 10)):
+            yield ln
     real_polls = sorted(poll_classes().items())
     for _ in range(n):
         kind = rng.choice(['set', 'set', 'mga', 'poll', 'poll', 'poll', 'faf'])
@@ -375,7 +440,7 @@ class BufSrv(sb.UbxServerBase_):
     def __init__(self, sc, req_index=None, tick=None, pending=()):
         super().__init__()
         self.sc = sc
-        self.pending = sorted(pending)
+        self.pending = sorted(pending, key=lambda e: e[0])      # stable: arrivals of one instant keep their order
         self.buf = bytearray()
         self.sent, self.rx_trace, self.tx_trace, self.calls = [], [], [], ''
         self.cur = req_index
@@ -1004,8 +1069,21 @@ def gen_scan1(rng, n, profile):
             k = rng.random()
             if k < .35:
                 stream += frame(rng.choice([1, 5, 6]), rng.randrange(4), bytes(rng.randrange(256) for _ in range(rng.choice([0, 2, 8]))))
-            elif k < .55:
+            elif k < .45:
                 stream += nm if rng.random() < .8 else b'$GP*18\r\n'
+            elif k < .55:
+                # sentences of every kind: bytes >= 0x80 in the body or between the checksum digits, right and wrong checksums
+                import comp_parsers
+                piece = comp_parsers.nmea_stream(rng)
+                if rng.random() < .5:
+                    body = bytes(rng.choice([0x47, 0x50, 0x2c, 0x80, 0xff, 0xc3]) for _ in range(rng.randrange(1, 6)))
+                    x = 0
+                    for b in body:
+                        if b < 0x80:
+                            x ^= b
+                    piece = b'$' + body + b'*' + (b'%02X' % x) + b'\r\n'       # valid only if the high bytes were dropped
+                    piece = piece * 2
+                stream += piece
             elif k < .7:
                 stream += bytes(rng.randrange(256) for _ in range(rng.randrange(1, 12)))
             elif k < .8:
@@ -1295,7 +1373,8 @@ def gen_gpsdtx(rng, n, profile):
 
 
 COMPONENTS = {
-    'srv': {'real': real_srv, 'oracles': oracles_srv, 'gen': gen_srv},
+    'srv': {'real': real_srv, 'oracles': oracles_srv, 'gen': gen_srv,
+            'model_line': lambda line: run_srvedit(line)[1] if line.startswith('srvedit|') else line},
     'seq': {'real': real_seqs, 'oracles': oracles_seqs, 'gen': gen_seqs, 'model_line': model_line_seqs},
     'level': {'real': real_level, 'oracles': oracles_level, 'gen': gen_level, 'model_line': model_line_level},
     'tty': {'real': real_tty, 'oracles': oracles_tty, 'gen': gen_tty},
